@@ -32,8 +32,8 @@ SampleMod == 41
 Graphs4 == { EdgesOfIndex(i) : i \in { j \in 0..65535 : j % SampleMod = SeedVal % SampleMod } }
 Graphs3 == SUBSET (Nodes3 \X Nodes3)
 (* quick: all 512 digraphs on 3 nodes for the left-recursive definition (the one that loops without tabling),   *)
-(* and those with at most 4 edges or at least 8 edges for the others                                           *)
-Small3 == { E \in Graphs3 : Cardinality(E) <= 3 \/ Cardinality(E) >= 8 }
+(* and those with at most 2 edges or at least 8 edges for the others and for the second call order            *)
+Small3 == { E \in Graphs3 : Cardinality(E) <= 2 \/ Cardinality(E) >= 8 }
 
 PathKinds == {"left", "right", "double"}
 MutKinds  == {"mright", "mleft"}
@@ -49,7 +49,8 @@ Orders == { <<"xy", "ay", "xa", "ab", "xx", "cc">>, <<"ab", "cc", "xa", "ay", "x
 
 TabCases ==
   IF Tier = "quick"
-  THEN { [E |-> E, n |-> 3, kind |-> "left", order |-> o] : E \in Graphs3, o \in Orders }
+  THEN { [E |-> E, n |-> 3, kind |-> "left", order |-> Modes] : E \in Graphs3 }
+       \cup { [E |-> E, n |-> 3, kind |-> "left", order |-> o] : E \in Small3, o \in Orders }
        \cup { [E |-> E, n |-> 3, kind |-> k, order |-> Modes] : E \in Small3, k \in {"right", "double", "mright", "mleft"} }
   ELSE { [E |-> E, n |-> 3, kind |-> k, order |-> o] : E \in Graphs3, k \in PathKinds \cup MutKinds, o \in Orders }
        \cup { [E |-> E, n |-> 4, kind |-> k, order |-> Modes] : E \in Graphs4, k \in PathKinds \cup MutKinds }
@@ -105,6 +106,7 @@ Drivers == <<
   [h |-> C("handle", <<C1("get", X), Cv, S0, S>>), b |-> Conj(Eq(X, S0), C3("run_state", Cv, S0, S))],
   [h |-> C("handle", <<C1("put", S1), Cv, S0, S>>), b |-> C3("run_state", Cv, S1, S)],
   [h |-> A("incr"), b |-> ConjOf(<<Shift(C1("get", X)), C2("is", Y, C2("+", X, I(1))), Shift(C1("put", Y))>>)],
+  [h |-> C1("dropthrow", G), b |-> ConjOf(<<Reset(G, B, K), Log(C1("b", B)), C1("throw", A("after"))>>)],
   [h |-> C1("t", I(1)), b |-> True],
   [h |-> C1("t", I(2)), b |-> True]
 >>
@@ -155,6 +157,10 @@ StateQueries == { C3("run_state", bd, I(0), S) : bd \in StBodies }
 
 DlQueries == { C1(d, bd) : d \in GenDrivers, bd \in GenBodies } \cup TakeQueries \cup StateQueries
              \cup { C3("catch", C1("run", bd), V("Ex"), Log(C1("exc", V("Ex")))) : bd \in Bodies2(ItemsQ \cup {ItCt, ItCc}, {ItTh}) }
+             \* an exception raised after the reset returned (continuation not resumed): a catch/3 inside the
+             \* delimited goal is no longer active (its frame is part of the captured continuation)
+             \cup { C3("catch", C1("dropthrow", bd), V("Ex"), Log(C1("exc", V("Ex")))) :
+                       bd \in {ItS1, ItLp, ItCt, ItCc, ItIr, ItTx} \cup Bodies2({ItCt, ItCc, ItS1}, {ItLp, ItS1}) \cup Bodies2({ItLp, ItTx}, {ItCt, ItCc}) }
 
 RECURSIVE RunChk(_)
 RunChk(mm) == IF mm.phase = "done" THEN mm
